@@ -18,6 +18,10 @@ pub enum WOp {
     SetSafe { key: String, delta: i32, val: String },
     Inc { by: i32 },
     Remove { key: String },
+    /// n plain writes of distinct values back to back (a subscriber that is not reading piles up more
+    /// notifications than its channel's nominal capacity of 100)
+    #[serde(rename = "Burst")]
+    Burst { key: String, n: u32, val: String },
 }
 
 #[derive(Clone, Debug, Serialize, Deserialize, PartialEq)]
@@ -34,13 +38,23 @@ pub enum SOp {
 pub struct Program {
     pub writers: Vec<Vec<WOp>>,
     pub subscribers: Vec<Vec<SOp>>,
+    /// conflict strategy of the database: none or newer (a stale versioned write is then accepted)
+    #[serde(default = "default_strategy")]
+    pub strategy: String,
+}
+
+fn default_strategy() -> String {
+    "none".to_string()
 }
 
 const KEYS: [&str; 2] = ["a", "b"];
 const NKEY: &str = "n";
 
 fn gen(rng: &mut Rng) -> Program {
-    let nw = rng.range(1, 2) as usize;
+    // newer-strategy databases: one writer only (with two, a stale versioned write that loses the
+    // resolution is acknowledged without being stored, so "acknowledged" would not imply "notified")
+    let strategy = if rng.chance(1, 3) { "newer" } else { "none" }.to_string();
+    let nw = if strategy == "newer" { 1 } else { rng.range(1, 2) as usize };
     let ns = rng.range(1, 2) as usize;
     let mut uniq = 0;
     let mut last_val: std::collections::BTreeMap<String, String> = std::collections::BTreeMap::new();
@@ -57,6 +71,10 @@ fn gen(rng: &mut Rng) -> Program {
                 _ => format!("w{}", uniq),
             };
             last_val.insert(key.clone(), val.clone());
+            if rng.chance(1, 25) {
+                ops.push(WOp::Burst { key, n: rng.range(40, 140) as u32, val: format!("b{}", uniq) });
+                continue;
+            }
             ops.push(match rng.below(10) {
                 0..=3 => WOp::Set { key, val },
                 4 | 5 => WOp::SetSafe { key, delta: 0, val },
@@ -106,7 +124,7 @@ fn gen(rng: &mut Rng) -> Program {
         }
         subscribers.push(ops);
     }
-    Program { writers, subscribers }
+    Program { writers, subscribers, strategy }
 }
 
 #[derive(Clone, Debug)]
@@ -140,7 +158,7 @@ struct Outcome {
 fn execute(prog: Program, wire: bool) -> Outcome {
     let mut out = Outcome { setup_ok: false, wrecs: vec![], srecs: vec![], notes: vec![], finals: vec![], wire };
     let w = World::new(1);
-    let (dbs, mut admin) = match single_node_with_db(&w, "d", "tok", "none") {
+    let (dbs, mut admin) = match single_node_with_db(&w, "d", "tok", &prog.strategy) {
         Some(x) => x,
         None => return out,
     };
@@ -159,7 +177,18 @@ fn execute(prog: Program, wire: bool) -> Outcome {
             let mut s = Session::new(&dbs);
             s.exec("use-db d tok");
             for op in ops {
+                if let WOp::Burst { key, n, val } = &op {
+                    for j in 0..*n {
+                        let value = format!("{}_{}", val, j);
+                        let invoke = seq.fetch_add(1, Ordering::SeqCst);
+                        let r = s.exec(&format!("set {} {}", key, value));
+                        let ret = seq.fetch_add(1, Ordering::SeqCst);
+                        wrecs.lock().unwrap().push(WRec { writer: wi, key: key.clone(), value, kind: "set", invoke, ret, ok: !r.resp.is_err() });
+                    }
+                    continue;
+                }
                 let (key, value, kind, line) = match &op {
+                    WOp::Burst { .. } => unreachable!(),
                     WOp::Set { key, val } => (key.clone(), val.clone(), "set", format!("set {} {}", key, val)),
                     WOp::SetSafe { key, delta, val } => {
                         let cur = parse_value_version(&s.exec(&format!("get-safe {}", key)).msgs).map(|x| x.0).unwrap_or(0);
